@@ -20,3 +20,29 @@ package consensus
 //@ opt stable r.r, r.r.in
 //@ requires m != nil && io.validR(r)
 //@ call (*message).DecodeBinary requires[stateroot] arg0 == m.prepareRequest && arg0.stateRootEnabled == m.stateRootEnabled
+
+// Safety sweep over the consensus message bodies (C17): no panic while decoding.
+//@ func (*recoveryRequest).DecodeBinary
+//@ requires m != nil && io.validR(r)
+//@ opt frame off
+//@ func (*commit).DecodeBinary
+//@ requires c != nil && io.validR(r)
+//@ opt frame off
+//@ func (*prepareRequest).DecodeBinary
+//@ requires p != nil && io.validR(r)
+//@ opt frame off
+//@ func (*prepareResponse).DecodeBinary
+//@ requires p != nil && io.validR(r)
+//@ opt frame off
+//@ func (*changeView).DecodeBinary
+//@ requires c != nil && io.validR(r)
+//@ opt frame off
+//@ func (*changeViewCompact).DecodeBinary
+//@ requires p != nil && io.validR(r)
+//@ opt frame off
+//@ func (*commitCompact).DecodeBinary
+//@ requires p != nil && io.validR(r)
+//@ opt frame off
+//@ func (*preparationCompact).DecodeBinary
+//@ requires p != nil && io.validR(r)
+//@ opt frame off
